@@ -365,6 +365,17 @@ def check_open(mir_text, src, label, entry, readonly):
                 if not good:
                     v_r1.append({"write": w["func"], "args": [repr(a_)[:80] for a_ in w["args"]],
                                  "why": "store into the mapping of an existing file that is not `write_bytes(ptr + allocated, 0, len - allocated)` under `len > allocated`"})
+        # ---- R4: a read-only open never accepts a file that is too small to contain the header prefix ----
+        if readonly and sizes:
+            offv = opt_field(prog, opts, "offset")
+            if offv is None:
+                v_r3.append({"field": "size check", "why": "Options::offset not consulted before accepting the file"})
+            else:
+                fs = sizes[0]["result"]
+                avail = z3.If(z3.UGE(fs, offv), fs - offv, bv(0, 64))
+                okp, _ = prove(ex, e.guard, acc, z3.UGE(avail, f["dofs"]))
+                if not okp:
+                    v_r3.append({"field": "size check", "why": "a file smaller than the header prefix (after Options::offset) can be accepted by the read-only open"})
         # ---- R4: a read-only open never maps beyond the end of the file ----
         if readonly:
             co = [x for x in effs if "FnOnce" in x["func"] and x["args"] and isinstance(x["args"][-1], Tup)]
